@@ -143,7 +143,8 @@ ALIAS = {
     "in": {"input", "in_size"}, "out": {"output"}, "size": {"in_size", "out_size", "size", "in_capacity", "out_capacity"}, "want": {"want"},
     "strm": {"stream"}, "err": {"err"}, "msg": {"msg"}, "path": {"path"}, "fd": {"fd"}, "start": {"start"}, "raw": {"raw"},
 }
-LOCAL_ALIAS = {"windowbits": {"window_bits"}, "memlevel": {"mem_level"}, "dictlength": {"dictionary", "len"}, "dictlen": {"dictionary", "len"},
+LOCAL_ALIAS = {"bits": {"bits", "bits_in_buffer", "bitreader::bits_in_buffer", "bits_used"}, "hold": {"hold", "bit_buffer", "bitreader::hold"},
+               "windowbits": {"window_bits"}, "memlevel": {"mem_level"}, "dictlength": {"dictionary", "len"}, "dictlen": {"dictionary", "len"},
                "hash_head": {"hash_head"}, "bstate": {"bstate"}, "old_flush": {"old_flush"}, "val": {"val"}, "err": {"err"}, "ret": {"ret"}}
 
 
@@ -334,6 +335,7 @@ def matches(c, s, toks):
         if nl in own or n in s.names:
             continue
         if n in bound_names or c.get("raw", {}).get(n) in bound_names:
+            by_value = True     # folded into the constant: recognised by value, so the subject has to be right
             continue
         if snames is None:
             snames = set(structural(s)["names"])
@@ -360,9 +362,11 @@ def matches(c, s, toks):
     locs = c["locals"]
     # a name recognised only by its value (Z_NO_FLUSH = 0) says nothing about the subject: then the C locals must be there
     if not c["fields"] and (not c["names"] or by_value):
+        # recognised by value only: the subject has to be in the atom itself, not merely somewhere in its block
+        where_ = own if (by_value and c["names"]) else toks
         for l in locs:
             alts = LOCAL_ALIAS.get(l.lower(), {l.lower()}) | {l.lower()}
-            if not (alts & toks):
+            if not (alts & where_):
                 return False
     if not (c["fields"] or c["names"] or locs):
         return False
